@@ -219,12 +219,54 @@ class Monitor:
         node.run = run
 
 
-def run_real(top, chunks, data=None, path="r", on_none=None, cap=200000):
+class Tape:
+    """a caller's own source that follows the documented protocol of `cpppo.peekable` ("has (at least) the
+    peek/sent methods": peek / push / sent / next / chain) WITHOUT deriving from cpppo.peeking.  `sent` is this
+    object's own count of what was taken from it (net of what was pushed back)."""
+
+    def __init__(self, block=b""):
+        self.blocks = [list(block)]
+        self.pushed = []
+        self.sent = 0
+
+    def chain(self, block):
+        self.blocks.append(list(block))
+
+    def __iter__(self):
+        return self
+
+    def peek(self):
+        if self.pushed:
+            return self.pushed[-1]
+        for b in self.blocks:
+            if b:
+                return b[0]
+        return None
+
+    def push(self, item):
+        self.pushed.append(item)
+        self.sent -= 1
+
+    def __next__(self):
+        if self.pushed:
+            self.sent += 1
+            return self.pushed.pop()
+        while self.blocks and not self.blocks[0] and len(self.blocks) > 1:
+            self.blocks.pop(0)
+        if self.blocks and self.blocks[0]:
+            self.sent += 1
+            return self.blocks[0].pop(0)
+        raise StopIteration
+
+    next = __next__
+
+
+def run_real(top, chunks, data=None, path="r", on_none=None, cap=200000, duck=False):
     """drive the outermost generator exactly as server/enip/main.py does: on a (machine, None) event
     chain the next block of input (if any)"""
     import cpppo
     pend = [bytes.fromhex(c) for c in chunks]
-    src = cpppo.chainable(pend.pop(0) if pend else b"")
+    src = (Tape if duck else cpppo.chainable)(pend.pop(0) if pend else b"")
     data = cpppo.dotdict() if data is None else data
     out = "ok"
     n = 0
@@ -263,8 +305,14 @@ def drain(src, pend):
     return bytes(rest)
 
 
-def property_verdict(records, out, all_input, sent, rest):
+def property_verdict(records, out, all_input, sent, rest, taken=None):
     """the property, checked on what the real run did (independent of the model)"""
+    if taken is not None and records and records[0]["start"] == 0 and records[0]["end"] is not None \
+            and records[0]["end"] != taken:
+        # the caller handed in its own source object: what the outermost machine saw as consumed (`source.sent`
+        # where it ran) against what was really taken from the caller's source
+        return (f"the framework reports {records[0]['end']} symbols consumed, but {taken} symbols were taken from "
+                f"the caller's source (a symbol beyond the parsed region was taken and not given back)")
     # the number of symbols reported as consumed equals the number actually taken from the input,
     # and nothing was skipped or reordered: what is left is exactly the input after `sent` symbols
     if not (0 <= sent <= len(all_input)):
@@ -459,9 +507,16 @@ class C10(Suite):
         quick = tier == "quick"
         yield from self.src_cases(rng, 400 if quick else 10000)
         yield from self.grid_cases(rng, quick)
-        yield from self.random_programs(rng, 6000 if quick else 150000)
-        yield from self.lib_cases(rng, quick)
-        yield from self.cip_cases(rng, quick)
+        # every family also with the caller's OWN source object (duck-typed peek/push/sent, not a cpppo.peeking):
+        # what is taken from it must be what the framework accounts for
+        for c in self.random_programs(rng, 6000 if quick else 150000):
+            yield c
+            if rng.random() < 0.08:
+                yield dict(c, duck=1)
+        for c in itertools.chain(self.lib_cases(rng, quick), self.short_item_cases(rng, quick), self.cip_cases(rng, quick)):
+            yield c
+            if rng.random() < (0.15 if quick else 0.3):
+                yield dict(c, duck=1)
 
     def src_cases(self, rng, n):
         for k in range(n):
@@ -672,6 +727,25 @@ class C10(Suite):
                             yield {"op": "lib", "m": name, "mode": mode, "limit": lim, "n": n if exact else None,
                                    "chunks": split_chunks(rng, b + tail) if rng.random() < 0.3 else [(b + tail).hex()]}
 
+    def short_item_cases(self, rng, quick):
+        """CPF lists whose 0x00b2 item is short (1..6 octets) and begins like a reply (0xD2 / 0xD4 / 0xCC ...), with
+        only 0..3 octets of input after it: the item parsers' look-ahead decisions are made with fewer symbols
+        available than they would like, some of them beyond the item's own boundary"""
+        for first in (0xD2, 0xD2, 0xD4, 0xCC, 0x52, 0x8E):
+            for ln in range(1, 7):
+                item = bytes([first]) + bytes(rng.choice([0, 0, 1, 4, 6, 0xD2]) for _ in range(ln - 1))
+                for head in (b"\x01\x00", b"\x02\x00\x00\x00\x00\x00"):
+                    b = head + struct.pack("<HH", 0xb2, ln) + item
+                    for tl in ((0, 1, 2, 3) if not quick or first == 0xD2 else (rng.choice([1, 2]),)):
+                        tail = bytes(rng.choice([0x41, 0x42, 0x43, 0xD2, 0x00]) for _ in range(tl))
+                        if tl >= 2 and tail[0] == tail[1]:
+                            tail = bytes([tail[0], tail[1] ^ 3]) + tail[2:]
+                        for m in ("CPF",) if quick else ("CPF", "send_data"):
+                            bb = (struct.pack("<IH", 0, 5) + b) if m == "send_data" else b
+                            for lim in (None, len(bb)):
+                                yield {"op": "lib", "m": m, "mode": "kw", "limit": lim, "n": None,
+                                       "chunks": [(bb + tail).hex()]}
+
     def cip_cases(self, rng, quick):
         """the CIP command level: enip.command / enip.length come from the (already parsed) header in the data
         artifact, the source is a stream that continues past the frame (the next frame's octets).  enip.length
@@ -718,7 +792,7 @@ class C10(Suite):
         data0 = L.LogDict()
         for k, v in sorted((c.get("pre") or {}).items()):
             data0[k] = v
-        out, src, pend, data = run_real(top, c["chunks"], data=data0, path=c.get("path"))
+        out, src, pend, data = run_real(top, c["chunks"], data=data0, path=c.get("path"), duck=bool(c.get("duck")))
         sent, peek = src.sent, show_peek(src)
         key = json.dumps(c, sort_keys=True)
         tape = [v if isinstance(v, int) and not isinstance(v, bool) and v >= 0 else None for v in sess.tape]
@@ -732,7 +806,7 @@ class C10(Suite):
             else:
                 line = "%s %d %s" % (out, sent, peek)
             self._line[key] = eng_line(states, 0, c["chunks"], tape)
-        why = property_verdict(sess.records, out, all_input, sent, drain(src, pend))
+        why = property_verdict(sess.records, out, all_input, sent, drain(src, pend), taken=sent if c.get("duck") else None)
         if not why and out == "ok" and c["limit"] is not None and sent > c["limit"]:
             why = f"{c['m']} completed having consumed {sent} symbols with limit {c['limit']}"
         if (not why and out == "ok" and c.get("n") is not None and sent > c["n"]
@@ -825,7 +899,7 @@ class C10(Suite):
                 (lambda path, data, k=rep[1]: data.get(vpath(k), 0)))
             mon.attach(o, i, limv, repv, consumes=s["k"] in "id")
         all_input = b"".join(bytes.fromhex(x) for x in c["chunks"])
-        out, src, pend, data = run_real(objs[c["top"]], c["chunks"])
+        out, src, pend, data = run_real(objs[c["top"]], c["chunks"], duck=bool(c.get("duck")))
         sent, peek = src.sent, show_peek(src)
         if out == "ok":
             dfas = ",".join("%d=%d.%d.%d" % (i, index[id(o.current)], o.cycle, o.final)
@@ -833,7 +907,7 @@ class C10(Suite):
             line = "ok %d %s %d %s" % (sent, peek, 1 if objs[c["top"]].terminal else 0, dfas or "-")
         else:
             line = "%s %d %s" % (out, sent, peek)
-        why = property_verdict(mon.records, out, all_input, sent, drain(src, pend))
+        why = property_verdict(mon.records, out, all_input, sent, drain(src, pend), taken=sent if c.get("duck") else None)
         key = self.model_line(c)
         if why:
             self._why[key] = why
